@@ -174,6 +174,34 @@ func runC10(p *core.Program, r *core.Report) {
 			}
 		}
 		c.ob("AG2", fname, "visitor call exists", c.fpos(fn), nCalls == 1, "traverse must call the visitor at exactly one site")
+		// the scans over the entries end only through their own test: a removed entry is
+		// skipped, it does not end the scan (nor does anything else)
+		{
+			sites := append([]ssa.CallInstruction{}, path.CallsOfValue(fn, cb, true)...)
+			sites = append(sites, callsTo(fn, fn)...)
+			done := map[*ssa.BasicBlock]bool{}
+			for _, site := range sites {
+				if site.Parent() != fn {
+					continue
+				}
+				for _, h := range fn.Blocks {
+					loop := path.NaturalLoop(h)
+					if len(loop) == 0 || !loop[site.Block()] || done[h] {
+						continue
+					}
+					done[h] = true
+					early := false
+					for b := range loop {
+						for _, sc := range b.Succs {
+							if !loop[sc] && b != h {
+								early = true
+							}
+						}
+					}
+					c.ob("PT5", fname, "entry scan runs to its end", p.InstrPos(site), !early, "the scan over a node's entries can be left before its own test fails (a break, or a return inside the loop): entries behind that point - for instance live ones after a removed one - are not visited")
+				}
+			}
+		}
 		// recursion: children[i].next, depth-1, same visitor, forward scan
 		nrec := 0
 		for _, call := range callsTo(fn, fn) {
